@@ -188,7 +188,8 @@ def render(toks, kw, salt=0):
             text += glue
         text += l
     if salt % 2:
-        text += ' # x\x0c y\r kw\x85 x\u2028 y'        # a comment ends at the line feed only
+        text += ('' if text.endswith('\t') else ' ') + '# x\x0c y\r kw\x85 x\u2028 y'        # a comment ends at the line feed only
+        # (no blank after a tab that is a token: white space runs are one token)
     return text, [{'n': t, 'v': l.strip('"')} for t, l in zip(toks, lex)]      # value of a quoted word: without the quotes
 
 
